@@ -127,6 +127,7 @@ def case_strategy():
             marked = (not mc) and bool(defs) and draw(st.integers(0, 3)) > 0  # a mixin class announcing `@extend_super`
             classes.append({"id": i, "mc": mc, "bases": bases, "defs": defs, "ext": ext and bool(defs), "marked": marked,
                             "style": draw(st.sampled_from(["OvldBase", "metaclass"])),
+                            "sparse_deco": draw(st.booleans()),
                             # which of the same-named definitions carries the marker (any of them may)
                             "mark_at": draw(st.integers(0, len(defs) - 1)) if (ext and defs and draw(st.integers(0, 2)) == 0) else 0})
         return {"classes": classes}
@@ -161,9 +162,9 @@ def render_class(c, classes):
             lines.append("    @extend_super")
         elif m.get("also_marked") and not decorated:
             lines.append("    @extend_super")
-        elif decorated:
-            # @ovld(...) looks the name up in the class body and insists on finding an overloaded function there,
-            # so once one definition is decorated all of them are
+        elif decorated and (m.get("prio") or not c.get("sparse_deco")):
+            # @ovld(priority=...) on every definition, or (sparse_deco) only on those that need a priority - in
+            # whatever position they come, also after plain definitions
             lines.append(f"    @ovld(priority={m.get('prio', 0)})")
         k = m["id"]
         lines.append(f"    def f(self, x: GA{k}):")
